@@ -29,6 +29,8 @@ META["explanation"] += " " + "(SB-capsize) Array's copying members record the so
 META["explanation"] += " " + '(NULL-store) a String / StringStream member writes through its own Storage() only where the empty, storage-less state was excluded (must-analysis; a non-strict bound such as len <= Length() does not exclude it unless len != 0 was established).'
 
 
+META["explanation"] += " " + 'Taken over unchanged from other modules because a seeded change to this property was reported by them (rules.common.shared): O12-descendant from C16; ASYM/SB-eqlen from C15.'
+
 def size_updates(f):
     """node ids of statements that change the container's size/length"""
     out = []
@@ -44,7 +46,7 @@ def size_updates(f):
     return sorted(out)
 
 
-def run(ctx):
+def _run_own(ctx):
     m = ctx.pattern()
     rules = []
 
@@ -305,3 +307,12 @@ def same_branch_excluded(f, a, b):
             if (a in th and b in el) or (a in el and b in th):
                 return True
     return False
+
+
+def run(ctx):
+    rules_ = list(_run_own(ctx) or [])
+    from rules.common import shared
+    have = set(r_.rid for r_ in rules_)
+    rules_ += [r_ for r_ in shared(ctx, 'C16', ['O12-descendant']) if r_.rid not in have]
+    rules_ += [r_ for r_ in shared(ctx, 'C15', ['ASYM', 'SB-eqlen']) if r_.rid not in have]
+    return rules_
